@@ -21,8 +21,9 @@ import traceback
 
 from vlib import env
 
-EVIDENCE_DIR = os.path.join(env.VERIF, 'evidence')
-REPLAY_DIR = os.path.join(env.VERIF, 'replays')
+EVIDENCE_DIR = os.environ.get('VERIF_EVIDENCE_DIR') or os.path.join(env.VERIF, 'evidence')
+REPLAY_DIR = (os.path.join(os.environ['VERIF_EVIDENCE_DIR'], 'replays') if os.environ.get('VERIF_EVIDENCE_DIR')
+              else os.path.join(env.VERIF, 'replays'))
 CORPUS_DIR = os.path.join(env.VERIF, 'corpus')
 KNOWN_FILE = os.path.join(env.VERIF, 'known_findings.json')
 
@@ -288,6 +289,28 @@ class Ctx:
               f'{sum(self.known_hits.values())} known-finding hits, {wall:.1f}s')
         sys.stdout.flush()
         return 1 if self.violations else 0
+
+
+def guarded(prop):
+    """decorator for per-case check functions: an exception escaping from the code under test
+    (rather than being judged by the check) is itself reported as a failure of that case"""
+    def deco(fn):
+        import functools
+
+        @functools.wraps(fn)
+        def wrapper(*a, **k):
+            try:
+                return fn(*a, **k)
+            except (Violation, HarnessError, KeyboardInterrupt):
+                raise
+            except BaseException as ex:  # noqa
+                tb = traceback.extract_tb(ex.__traceback__)
+                where = next((f'{os.path.basename(fr.filename)}:{fr.name}' for fr in reversed(tb)
+                              if '/depccg/' in fr.filename), 'harness')
+                return [(f'{prop}/unexpected-exception/{type(ex).__name__}@{where}',
+                         f'{type(ex).__name__}: {ex}')]
+        return wrapper
+    return deco
 
 
 def _find_violation(exc):
